@@ -31,7 +31,9 @@ AggOk(e, ev, P) ==
      /\ \A k \in DOMAIN e.multi : {<<e.multi[k][1], e.multi[k][2]>>, <<e.multi[k][3], e.multi[k][4]>>} \in ups
 VColl(e) ==
   LET S == Len(e.sites)
-      nearS == [a \in 1..S |-> [b \in 1..S |-> DistSq(e.G, e.sites[a], e.sites[b], e.N, e.R) < e.thr]]
+      dsq(a, b) == IF "pbc" \in DOMAIN e THEN DistSqPbc(e.G, e.sites[a], e.sites[b], e.N, e.R, e.pbc)
+                   ELSE DistSq(e.G, e.sites[a], e.sites[b], e.N, e.R)
+      nearS == [a \in 1..S |-> [b \in 1..S |-> dsq(a, b) < e.thr]]
       NearJ(x, y) == \E a \in {x[2], x[3]}, b \in {y[2], y[3]} : nearS[a + 1][b + 1]
       ev == SortJ(e.jumps)
       P == DeclPairs(e.jumps, e.window, NearJ)
